@@ -140,6 +140,8 @@ def term_str(t, depth=0):
     if k == 'len':
         return 'len(%s)' % term_str(t[1], d)
     if k == 'ret':
+        if len(t) == 2:
+            return 'ret<%s>' % t[1].split('::')[-1]
         return 'ret<%s@%s>' % (t[2].split('::')[-1], site_str(t[1]))
     if k == 'err':
         return 'err@%s' % site_str(t[1])
@@ -151,6 +153,8 @@ def term_str(t, depth=0):
         return path_str(t[1], d)
     if k == 'elemref':
         return '&elem(%s)' % term_str(t[1], d)
+    if k == 'elem':
+        return 'elem(%s)' % term_str(t[1], d)
     if k == 'iter':
         return 'iter(%s)' % term_str(t[1], d)
     if k == 'next':
@@ -161,6 +165,8 @@ def term_str(t, depth=0):
         return 'map(%s, %s)' % (term_str(t[1], d), term_str(t[2], d))
     if k == 'deref':
         return '*' + term_str(t[1], d)
+    if k == 'app':
+        return '%s(%s)' % (t[1].split('::')[-1], ', '.join(term_str(x, d) for x in t[2]))
     if k == 'closure':
         return 'closure<%s>' % t[1].split('::')[-1]
     if k == 'fnitem':
@@ -179,6 +185,8 @@ def proj_str(proj, depth=0):
             s += '.' + e[1]
         elif e[0] == 'v':
             s += '<%s>' % e[1]
+        elif e[0] == 'vp':
+            s += '.<payload>'
         elif e[0] == 'i':
             s += '[%s]' % term_str(e[1], depth + 1)
         elif e[0] == 'ci':
@@ -295,7 +303,7 @@ def flat_effects(effs):
 
 class Interp:
     def __init__(self, facts, inline=None, fail_site=None, opaque_defs=(), max_paths=MAX_PATHS,
-                 assume_ok=True, fork_fallible=False, on_call=None):
+                 assume_ok=True, fork_fallible=False, on_call=None, summarise_pure=True):
         """
         inline(fnrec, call_term) -> bool    decides whether a local callee body is inlined
         fail_site: site tuple of the single fallible opaque call that returns Err on this run
@@ -310,6 +318,8 @@ class Interp:
         self.assume_ok = assume_ok
         self.fork_fallible = fork_fallible
         self.on_call = on_call
+        self.merge_accessors = True
+        self.summarise_pure = summarise_pure
         self.npaths = 0
         self.fallible_sites = []
         self._loops_cache = {}
@@ -392,6 +402,9 @@ class Interp:
                         v = fv
                         continue
                 return ('proj', v, tuple(proj[n:]))
+            if v[0] == 'closure' and e[0] == 'f' and e[1].isdigit() and int(e[1]) < len(v[2]):
+                v = v[2][int(e[1])]
+                continue
             if v[0] == 'upd':
                 rest = tuple(proj[n:])
                 # newest overlay that covers `rest`
@@ -702,7 +715,8 @@ class Interp:
             bidx = fr.block
             # loop entry?
             loops = self.loops_of(fn)
-            if bidx in loops and not (loopctx and loopctx[0] == fr.fid and loopctx[1] == bidx and loopctx[4] == len(st.frames)):
+            if bidx in loops and not (loopctx and loopctx[0] != 'ret' and loopctx[0] == fr.fid and loopctx[1] == bidx
+                                      and loopctx[4] == len(st.frames)):
                 self.enter_loop(st, fr, bidx, loops[bidx], loopctx, work, finished)
                 return
             blk = fn['blocks'][bidx]
@@ -800,13 +814,13 @@ class Interp:
                 if chained:
                     continue
                 self.write(st, fr.ret_path, rv)
-                if loopctx and len(st.frames) < loopctx[4]:
-                    # returned out of the frame owning the loop (cannot happen: ret pops only callee)
-                    pass
                 if fr.ret_target is None:
                     self.finish(st, 'diverge', finished)
                     return
                 caller.block = fr.ret_target
+                if loopctx and loopctx[0] == 'ret' and len(st.frames) < loopctx[1]:
+                    self.finish(st, 'exit', finished)
+                    return
                 if self.leaves(st, fr.ret_target, loopctx, finished):
                     return
                 continue
@@ -833,7 +847,7 @@ class Interp:
 
     def leaves(self, st, b, loopctx, finished):
         """Inside a loop-iteration exploration: stop at the back edge / at loop exits."""
-        if not loopctx:
+        if not loopctx or loopctx[0] == 'ret':
             return False
         fid, header, blocks, _uid, depth = loopctx
         if len(st.frames) != depth or st.frames[-1].fid != fid:
@@ -1028,12 +1042,23 @@ class Interp:
         target = self.F.fns.get(key) if key else None
         if target is None and res is None and fref.get('generic_body') and fref['krate'] == 'shapefile':
             target = None
+        if target is not None and self.merge_accessors and 'blocks' in target and target.get('krate') == self.F.crate \
+                and len(args) == 1:
+            ak = self.accessor_kind(target)
+            if ak == 'ref':
+                a = args[0]
+                loc = a[1] if a[0] == 'ref' else (('T', a), ())
+                self.write(st, dest, ('ref', (loc[0], loc[1] + (('vp', '0'),))))
+                return 'next'
+            if ak == 'val':
+                self.write(st, dest, self.project(args[0], (('vp', '0'),)))
+                return 'next'
         if target is not None and 'blocks' in target and target.get('krate') == self.F.crate \
                 and decl not in self.opaque_defs and (rdef not in self.opaque_defs) \
                 and (self.inline is None or self.inline(target, t)) \
                 and len(st.frames) < MAX_DEPTH \
                 and not any(f.fn['key'] == target['key'] for f in st.frames):
-            return self.push_frame(st, fr, target, args, dest, t['target'], site)
+            return self.spec_call(st, fr, target, args, dest, t['target'], site, loopctx, work, finished, rdef or decl)
 
         # opaque call
         ret = ('ret', site, rdef or decl)
@@ -1044,6 +1069,89 @@ class Interp:
                 old = self.read(st, a[1])
                 self.write(st, a[1], ('havoc', site, old))
         return self.fallible_result(st, dest, dest_ty, ret, site, rdef or decl, loopctx, work, finished, fr, t)
+
+    def spec_call(self, st, fr, target, args, dest, ret_target, site, loopctx, work, finished, name):
+        """Inline a local callee behind a barrier at its return.  One resulting path: adopt it.  Several
+        paths that are all pure (no effect, no memory change besides the result): do not fork the caller,
+        the result is the uninterpreted application ('app', def, args).  Otherwise adopt all paths."""
+        snap = st.fork() if self.summarise_pure else None
+        n_eff = len(st.eff)
+        depth = len(st.frames) + 1
+        self.push_frame(st, fr, target, args, dest, ret_target, site)
+        res = []
+        saved = self.npaths
+        self.explore([st], ('ret', depth), res)
+        exits = [x for x in res if x.status == 'exit']
+        others = [x for x in res if x.status != 'exit']
+        if snap is not None and len(exits) > 1 and not others:
+            pure = True
+            for x in exits:
+                if len(x.eff) != n_eff:
+                    pure = False
+                    break
+                for k2, v2 in x.mem.items():
+                    if k2 == dest or (k2[0] == dest[0] and k2[1][:len(dest[1])] == dest[1]):
+                        continue
+                    if snap.mem.get(k2) != v2:
+                        pure = False
+                        break
+                if not pure:
+                    break
+            if pure:
+                self.npaths = saved
+                snaps = tuple(self.read(snap, a[1]) if a[0] == 'ref' else None for a in args)
+                self.write(snap, dest, ('app', name, tuple(args), snaps))
+                snap.frames[-1].block = ret_target
+                if not self.leaves(snap, ret_target, loopctx, finished):
+                    work.append(snap)
+                return 'stop'
+        for x in others:
+            finished.append(x)
+        for x in exits:
+            x.done = False
+            x.status = None
+            self.npaths -= 1
+            if self.leaves(x, x.frames[-1].block, loopctx, finished):
+                continue
+            work.append(x)
+        return 'stop'
+
+    _acc_cache = {}
+
+    def accessor_kind(self, target):
+        """'ref' / 'val' when `target` is a pure accessor returning (a reference to) the single payload
+        of whichever variant its enum argument has (e.g. PolygonRing::points, Patch::points); else None."""
+        key = (id(self.F), target['key'])
+        if key in Interp._acc_cache:
+            return Interp._acc_cache[key]
+        Interp._acc_cache[key] = None
+        kind = None
+        if target['argc'] == 1 and len(target['blocks']) < 40:
+            try:
+                sub = Interp(self.F, max_paths=64)
+                sub.merge_accessors = False
+                ps = sub.run(target)
+                if len(ps) >= 2 and all(p.status == 'return' and not p.eff for p in ps):
+                    kinds = set()
+                    variants = set()
+                    for p in ps:
+                        r = p.ret
+                        if r[0] == 'ref' and r[1][0] == ('T', ('param', 1)) and len(r[1][1]) == 2 \
+                                and r[1][1][0][0] == 'v' and r[1][1][1] == ('f', '0'):
+                            kinds.add('ref')
+                            variants.add(r[1][1][0][1])
+                        elif r[0] == 'proj' and r[1] == ('param', 1) and len(r[2]) == 2 and r[2][0][0] == 'v' \
+                                and r[2][1] == ('f', '0'):
+                            kinds.add('val')
+                            variants.add(r[2][0][1])
+                        else:
+                            kinds.add(None)
+                    if len(kinds) == 1 and None not in kinds and len(variants) == len(ps):
+                        kind = kinds.pop()
+            except Unanalysable:
+                kind = None
+        Interp._acc_cache[key] = kind
+        return kind
 
     def push_frame(self, st, fr, target, args, dest, ret_target, site, post=None):
         fid = st.nfid
